@@ -29,6 +29,11 @@ def plan(tier, seed):
         files = {"good.py": b64(b"x = set([1])\nassert (1, 2)\nprint(f'a')\n"), "bad.py": b64(b"def (:\n"), "sub/bad2.py": b64(b"x = set([1]\n")}
         jobs.append({"id": f"carry-over{q}", "files": files, "argv": [], "steps": [base + ["--codemod-include", cm], base + ["--codemod-include", cm, "--path-exclude", "bad.py,sub/*"]], "excluded": ["bad.py", "sub/bad2.py"],
                      "monitors": {"snap": False, "pipe": False}, "want_before": True})
+    # codemods of different origins that share a NAME in one run (ids are unique, names are not): explicit pair, wildcard over the origins, the default tool-driven selection
+    tup_src = b"def f(x):\n    assert (x, 'message')\n"
+    sonar_doc = json.dumps({"issues": [{"key": "K1", "rule": "python:S5905", "status": "OPEN", "component": "proj:chk.py", "textRange": {"startLine": 2, "endLine": 2, "startOffset": 4, "endOffset": 25}}]})
+    for q, sel in enumerate((["--codemod-include", "sonar:python/fix-assert-tuple,pixee:python/fix-assert-tuple"], ["--codemod-include", "pixee:python/fix-assert-tuple,sonar:python/fix-assert-tuple"], ["--codemod-include", "*:python/fix-assert-tuple"], [])):
+        jobs.append({"id": f"same-name{q}", "files": {"chk.py": b64(tup_src)}, "result_files": {"sonar.json": sonar_doc}, "argv": base + ["--sonar-issues-json", "{res}/sonar.json"] + sel, "monitors": {"snap": False, "pipe": False}, "want_before": True, "stub_semgrep": True})
     jobs.append({"id": "zero-codemods", "files": {"a.py": b64(b"x = set([1])\n")}, "argv": base + ["--codemod-include", "nope:python/x"], "monitors": {"snap": False}, "want_before": True})
     jobs.append({"id": "zero-files", "files": {}, "argv": base + ["--codemod-include", "pixee:python/use-set-literal"], "monitors": {"snap": False}, "want_before": True})
     jobs.append({"id": "only-nonpython", "files": {"a.txt": b64(b"x")}, "argv": base + ["--codemod-include", "pixee:python/use-set-literal"], "monitors": {"snap": False}, "want_before": True})
